@@ -8,6 +8,7 @@ through the public API of SequenceParameters wrappers.
 """
 import copy
 
+from .. import envmode
 from ..kernel import Violation, DrawCap, feq, canon, cjson
 from ..gen import gen_seq, seq_class_of, AA, gen_special, gen_two_digit_counts, concat_collision, same_classes_other_letters
 from ..clock import SimClock, MODES
@@ -37,7 +38,7 @@ ASSUMPTIONS = ["frozen positions are 0-based (the convention full_shuffle implem
                "non-termination (N<5, single charge type) is counted as BUDGET",
                "bookkeeping is observed through the API: length, counts, per-residue charge via get_linear_NCPR(1), SCD, carried delta-max via get_deltaMax()",
                "swapRes indices are valid 0-based positions"]
-PROBES = ["frozen_positions_are_numpy_ints", "chain_longer_than_1000", "light_op_checked_at_next_sweep", "permutants_object_reused", "frozen_as_shared_set", "earlier_api_result_still_held", "default_frozen_argument", "frozen_as_tuple", "frozen_as_frozenset", "frozen_as_range", "frozen_nonempty", "frozen_all", "frozen_out_of_range", "frozen_as_list", "cache_warm_before_move", "child_inherits_dmax",
+PROBES = ["setter_on_an_object_of_the_chain", "object_dropped_and_replaced", "frozen_positions_are_numpy_ints", "chain_longer_than_1000", "light_op_checked_at_next_sweep", "permutants_object_reused", "frozen_as_shared_set", "earlier_api_result_still_held", "default_frozen_argument", "frozen_as_tuple", "frozen_as_frozenset", "frozen_as_range", "frozen_nonempty", "frozen_all", "frozen_out_of_range", "frozen_as_list", "cache_warm_before_move", "child_inherits_dmax",
           "same_seed_twice", "clock_went_back", "returns_self", "block_swap_attempt_99", "block_swap_N_lt_4", "cluster_draw_cap",
           "cluster_named_refusal", "chain_depth_ge_5", "panel_on_child", "permutant_api", "shuffle_api", "swapres_same_index",
           "three_types_sample", "moved_something"]
@@ -91,7 +92,11 @@ def gen_plan(streams, tier):
         o = rnd.randrange(0, 50)
         if rnd.random() < 0.5:
             o = -1  # most recent object: builds deep chains
-        if x < 0.14:
+        if x < 0.03:
+            ops.append({"k": "setter", "o": o, "n": rnd.randrange(1, 4)})
+        elif x < 0.05:
+            ops.append({"k": "drop", "o": o})
+        elif x < 0.14:
             ops.append({"k": "warm", "o": o, "how": rnd.choice(("kappa", "dmax", "dmax_perm"))})
         elif x < 0.72:
             m = rnd.choice([m for m in MOVES for _ in range(move_w[m])])
@@ -107,7 +112,7 @@ def gen_plan(streams, tier):
         else:
             ops.append({"k": "permutant", "o": o, "reuse_permutants": rnd.random() < 0.7})
     noise = rnd.randrange(1 << 30) if rnd.random() < 0.2 else None
-    return {"property": ID, "run_seed": streams.run_seed, "noise": noise, "roots": roots, "rng_mode": rng_mode, "clock_mode": clock_mode,
+    return {"property": ID, "env": envmode.choose(rnd), "run_seed": streams.run_seed, "noise": noise, "roots": roots, "rng_mode": rng_mode, "clock_mode": clock_mode,
             "bias": rnd.choice((0.15, 0.35, 0.6)), "ops": ops}
 
 
@@ -217,6 +222,13 @@ def corpus():
     mk("numpy_integer_positions_beyond_63", ["MKEGSTYKEDDRRGSPAQ" * 5], [
         {"k": kk, "o": 0, "m": "full_shuffle", "fz": "explicit", "fl": [0, 1, 5, 62, 63, 64, 65, 70, 80, 89], "ft": t, "npint": True, "panel": False}
         for t in ("set", "list", "frozenset") for kk in ("move", "shuffle_api")])
+    mk("setters_do_not_reach_relatives", ["GSKETGSKETYKE"], [
+        {"k": "setter", "o": 0, "n": 2}, {"k": "swapres", "o": 0, "i": 0.1, "j": 0.5}, {"k": "move", "o": 0, "m": "swapRandChargeRes", "fz": "none", "ft": "set", "panel": False},
+        {"k": "setter", "o": 1, "n": 3}, {"k": "move", "o": 1, "m": "full_shuffle", "fz": "none", "ft": "set", "panel": False}, {"k": "setter", "o": 2, "n": 1},
+        {"k": "shuffle_api", "o": 0, "fz": "none", "ft": "set", "panel": False}, {"k": "setter", "o": -1, "n": 2}])
+    mk("objects_die_and_are_replaced", ["GSKETGSKETYKE"], [op_ for q in range(6) for op_ in (
+        {"k": "shuffle_api", "o": 0, "fz": "explicit", "fl": [0, 12], "ft": "set", "panel": False, "light": True}, {"k": "drop", "o": -1},
+        {"k": "move", "o": -1, "m": "full_shuffle", "fz": "explicit", "fl": [0, 3, 12], "ft": "set", "panel": False})])
     mk("frozen_charge_swap", ["MKEGSTYKEDDRRGSP"], [{"k": "move", "o": -1, "m": "swapRandChargeRes", "fz": z, "fp": 0.4, "fs": 9, "ft": "set", "panel": False}
                                                      for z in ("random", "pos", "neg", "neut", "all", "charged", "half")])
     mk("warm_cache_chain", ["GKEGKEGKEGKEGSTY"], [{"k": "warm", "o": 0, "how": "kappa"}] +
@@ -258,6 +270,7 @@ def execute(plan, ctx):
     from localcider.sequenceParameters import SequenceParameters
     from localcider.sequencePermutants import SequencePermutants
     from localcider.backend.localciderExceptions import SequenceException
+    envmode.apply(plan.get("env"), ctx)
     spmod.print = lambda *a, **k: None
     clock = SimClock(ctx, ctx.streams.stream("clock"), plan.get("clock_mode", "normal"))
     mode = plan.get("rng_mode", "tape")
@@ -373,6 +386,8 @@ def execute(plan, ctx):
                 ctx.probe("returns_self")
                 return
         live.append(child)
+        if set_sites:
+            set_sites[len(live) - 1] = None      # filled at the first look: whatever a new object starts with is its own business
         recorded[len(live) - 1] = known_seq if known_seq is not None else wrap(child).get_sequence()
         depth.append(depth[parent_i] + 1)
         if depth[-1] >= 5:
@@ -380,6 +395,7 @@ def execute(plan, ctx):
         if depth[-1] == 1001:
             ctx.probe("chain_longer_than_1000")
 
+    set_sites = {}        # live index -> phosphosites set on that object through its own setter (once setters are in play)
     perm_objs = {}
     api_results = []      # (what, returned SequenceParameters object, the sequence it had when it was returned)
 
@@ -415,6 +431,13 @@ def execute(plan, ctx):
             d = peek_dmax(o)
             if d is not None and d != -1 and not feq(d, f.get_deltaMax(), 1e-12):
                 raise Violation("bookkeeping_mismatch", "later_altered:dmax", "live object %d (%r): cached delta-max %r, fresh object computes %r (%s)" % (j, s0, d, f.get_deltaMax(), why))
+            if set_sites.get(j, 0) is None:
+                set_sites[j] = list(w.get_phosphosites())
+            if j in set_sites:
+                # setters were used on some objects of the chain: each object's phosphosites and palette are its own
+                if list(w.get_phosphosites()) != set_sites[j]:
+                    raise Violation("parent_altered", "later_altered:sites", "live object %d (%r) now lists phosphosites %r; only %r were ever set on it (%s)" % (
+                        j, s0, w.get_phosphosites(), set_sites[j], why))
         ctx.count("sweeps")
 
     last_seed = [None]
@@ -428,6 +451,42 @@ def execute(plan, ctx):
         N = len(pseq)
         cls = seq_class_of(pseq)
         warm = peek_dmax(parent) not in (-1, None)
+        if k == "setter":
+            # a setter used on one object of the chain must not reach its relatives (parents, children, siblings)
+            if not set_sites:
+                for j2 in range(len(live)):
+                    set_sites[j2] = list(wrap(live[j2]).get_phosphosites())
+            sty = [q + 1 for q, ch in enumerate(pseq) if ch in "STY"]
+            want = sty[: op.get("n", 2)]
+            if set_sites.get(i) is None:
+                set_sites[i] = list(wrap(parent).get_phosphosites())
+            wrap(parent).set_phosphosites(list(want))
+            cur = set_sites[i]
+            for q in want:
+                if q not in cur:
+                    cur.append(q)
+            ctx.probe("setter_on_an_object_of_the_chain")
+            ctx.log.emit("setter", o=i, sites=want)
+            continue
+        if k == "drop":
+            # an object dies (nothing refers to it any more) and a different one of the same length and with the
+            # same end residues is built right afterwards: anything remembered by id() now points at the wrong object
+            import gc
+            if len(live) > len(plan["roots"]) and len(pseq) >= 4 and i >= len(plan["roots"]):
+                s_old = str(live[i])
+                inner = list(s_old[1:-1])
+                inner.reverse()
+                s_new = s_old[0] + "".join(inner) + s_old[-1]
+                api_results[:] = [r for r in api_results if r[1].SeqObj is not live[i]]
+                live[i] = None
+                parent = None
+                gc.collect()
+                live[i] = SequenceParameters(s_new).SeqObj
+                recorded[i] = s_new
+                set_sites.pop(i, None)
+                ctx.probe("object_dropped_and_replaced")
+                ctx.log.emit("drop", o=i, new=s_new)
+            continue
         if k == "warm":
             w = wrap(parent)
             if op["how"] == "kappa":
